@@ -112,9 +112,39 @@ def d2(cx: Cx, ob: Ob) -> None:
             ob.undecide("discover does not return Converter(...)")
             continue
         recs = ctor[0][2][0] if ctor[0][2] else dict(ctor[0][3]).get("records")
-        if op(recs) == "new":
-            ob.undecide("records are built in a loop (builder form not analysed here)")
-            continue
+        if op(recs) == "new" and recs[1] == "list":
+            # builder form: records = []; for ... in <sorted mapping>: [if keep:] records.append(Record(...))
+            apps = [(ev, c2) for ev, c2 in s.mutations_of(recs) if ev.kind == "expr" and callee_name(ev.a) == "append" and c2.loops]
+            others = [ev for ev, c2 in s.mutations_of(recs) if not (ev.kind == "expr" and callee_name(ev.a) == "append" and c2.loops)]
+            if len({ev.line for ev, _ in apps}) != 1 or others or (op(recs[4]) == "list" and recs[4][1]):
+                ob.undecide("records are built in a loop with more than one append site")
+                continue
+            ev0, c0 = apps[0]
+            lp = c0.loops[-1]
+            if len(c0.loops) != 1:
+                ob.undecide("records are appended inside nested loops")
+                continue
+            elt0 = ev0.a[2][0] if ev0.a[2] else None
+            kw0 = dict(elt0[3]) if op(elt0) == "call" else {}
+            inloop = [(g.a, g.b) for g in c0.guards if g.kind == "guard" and g.line >= lp.line]
+            lenrec = ("bin", "+", ("call", ("builtin", "len"), (recs,), ()), ("const", 1))
+            pparts = concat_parts(kw0.get("prefix")) if kw0.get("prefix") is not None else None
+            if pparts is not None and len(pparts) == 2 and op(pparts[1]) == "call" and pparts[1][1] == ("builtin", "str") and len(pparts[1][2]) == 1:
+                pparts = [pparts[0], pparts[1][2][0]]
+            ob.site(f"{where(fn, line)} {fn.qualname}", f"records appended in a loop over {show(lp.b)[:70]}")
+            if pparts is not None and len(pparts) == 2 and pparts[0] == ("param", "metaprefix") and pparts[1] in (lenrec, ("bin", "+", ("const", 1), ("call", ("builtin", "len"), (recs,), ()))):
+                # numbered by the count of records kept so far: consecutive whatever the filter
+                val = lp.a
+                if kw0.get("uri_prefix") != val and not (op(val) == "tuple" and kw0.get("uri_prefix") == val[1][0]):
+                    ob.violate(fn.qualname, where(fn, line), f"record uri_prefix is `{show(kw0.get('uri_prefix'))[:40] if kw0.get('uri_prefix') else None}`, not the URI prefix being iterated", detail="uri-prefix")
+                _order_chain(cx, ob, fn, s, lp.b, line)
+                continue
+            if op(lp.b) == "call" and lp.b[1] == ("builtin", "enumerate") and op(lp.a) == "tuple" and len(lp.a[1]) == 2 and pparts is not None and len(pparts) == 2 and pparts[1] == lp.a[1][0]:
+                # numbered by enumerate: same as the comprehension form, the in-loop guards are its filters
+                recs = ("comp", "list", elt0, ((lp.a, lp.b, tuple(g for g, pol in inloop)),))
+            else:
+                ob.undecide(f"records are numbered by `{show(kw0.get('prefix'))[:50] if kw0.get('prefix') else None}` in a builder loop")
+                continue
         if op(recs) != "comp" or len(recs[3]) != 1:
             ob.undecide(f"records are `{show(recs)[:60]}`")
             continue
@@ -135,47 +165,7 @@ def d2(cx: Cx, ob: Ob) -> None:
                 detail="filter-after-numbering",
             )
         seq = it[2][0]
-        # sorted somewhere between the mapping and enumerate, nothing order-destroying after it
-        chain = []
-        x = seq
-        while True:
-            if op(x) == "new" and x[1] == "list":
-                # a list built by appending inside a loop: follow the loop's iterable
-                apps = [(ev, c2) for ev, c2 in s.mutations_of(x) if ev.kind == "expr" and callee_name(ev.a) == "append" and c2.loops]
-                if len({id(c2.loops[-1]) for _, c2 in apps}) == 1 and not (op(x[4]) == "list" and x[4][1]):
-                    chain.append(("builder", x))
-                    x = apps[0][1].loops[-1].b
-                    continue
-                break
-            if op(x) == "item" and op(x[1]) not in ("const",):
-                # subscript into the mapping (d[k]) does not change the order of the keys
-                x = x[1]
-                continue
-            if op(x) == "comp" and len(x[3]) == 1:
-                chain.append(("comp", x))
-                x = x[3][0][1]
-            elif op(x) == "call" and op(x[1]) == "builtin" and x[2]:
-                chain.append((x[1][1], x))
-                x = x[2][0]
-            elif op(x) == "call" and op(x[1]) == "attr" and x[1][2] in ("items", "keys") and not x[2]:
-                chain.append((x[1][2], x))
-                x = x[1][1]
-            else:
-                break
-        names = [k for k, _ in chain]
-        if "sorted" not in names:
-            ob.violate(fn.qualname, where(fn, line), "URI prefixes are numbered in dictionary (first-seen) order, not sorted order: the names depend on the order of the input URIs", witness="discover([a.., b..]) and discover([b.., a..]) name the prefixes differently", detail="unsorted")
-        else:
-            before = names[: names.index("sorted")]
-            bad = [k for k in before if k in ("set", "frozenset", "reversed", "dict")]
-            if bad:
-                ob.violate(fn.qualname, where(fn, line), f"the sorted sequence is passed through {bad[0]}(...) before numbering", detail="order-destroyed")
-            srt = chain[names.index("sorted")][1]
-            kw = dict(srt[3])
-            if ("reverse" in kw and not is_const(kw["reverse"], False)) or "key" in kw:
-                ob.violate(fn.qualname, where(fn, line), f"URI prefixes are ordered with `{show(srt)[:60]}`, not plain sorted order", detail="sort-key")
-        if not (op(x) == "call" and x[1] == ("func", f"{D}._get_uri_prefix_to_luids")):
-            ob.undecide(f"the numbered sequence derives from `{show(x)[:50]}`")
+        _order_chain(cx, ob, fn, s, seq, line)
         # naming
         elt = recs[2]
         kw = dict(elt[3]) if op(elt) == "call" else {}
@@ -357,3 +347,47 @@ def x2(cx: Cx, ob: Ob) -> None:
     from ..rules import state_closure
 
     state_closure(cx, ob)
+
+
+def _order_chain(cx: Cx, ob: Ob, fn, s, seq, line) -> None:
+    """sorted(...) somewhere between the mapping and the numbering, nothing order-destroying after it."""
+    chain = []
+    x = seq
+    while True:
+        if op(x) == "new" and x[1] == "list":
+            # a list built by appending inside a loop: follow the loop's iterable
+            apps = [(ev, c2) for ev, c2 in s.mutations_of(x) if ev.kind == "expr" and callee_name(ev.a) == "append" and c2.loops]
+            if len({id(c2.loops[-1]) for _, c2 in apps}) == 1 and not (op(x[4]) == "list" and x[4][1]):
+                chain.append(("builder", x))
+                x = apps[0][1].loops[-1].b
+                continue
+            break
+        if op(x) == "item" and op(x[1]) not in ("const",):
+            # subscript into the mapping (d[k]) does not change the order of the keys
+            x = x[1]
+            continue
+        if op(x) == "comp" and len(x[3]) == 1:
+            chain.append(("comp", x))
+            x = x[3][0][1]
+        elif op(x) == "call" and op(x[1]) == "builtin" and x[2]:
+            chain.append((x[1][1], x))
+            x = x[2][0]
+        elif op(x) == "call" and op(x[1]) == "attr" and x[1][2] in ("items", "keys") and not x[2]:
+            chain.append((x[1][2], x))
+            x = x[1][1]
+        else:
+            break
+    names = [k for k, _ in chain]
+    if "sorted" not in names:
+        ob.violate(fn.qualname, where(fn, line), "URI prefixes are numbered in dictionary (first-seen) order, not sorted order: the names depend on the order of the input URIs", witness="discover([a.., b..]) and discover([b.., a..]) name the prefixes differently", detail="unsorted")
+    else:
+        before = names[: names.index("sorted")]
+        bad = [k for k in before if k in ("set", "frozenset", "reversed", "dict")]
+        if bad:
+            ob.violate(fn.qualname, where(fn, line), f"the sorted sequence is passed through {bad[0]}(...) before numbering", detail="order-destroyed")
+        srt = chain[names.index("sorted")][1]
+        kw = dict(srt[3])
+        if ("reverse" in kw and not is_const(kw["reverse"], False)) or "key" in kw:
+            ob.violate(fn.qualname, where(fn, line), f"URI prefixes are ordered with `{show(srt)[:60]}`, not plain sorted order", detail="sort-key")
+    if not (op(x) == "call" and x[1] == ("func", f"{D}._get_uri_prefix_to_luids")):
+        ob.undecide(f"the numbered sequence derives from `{show(x)[:50]}`")
